@@ -3,9 +3,10 @@ import BertE.Lemmas.StepAll
 import BertE.Lemmas.SelectClosed
 import BertE.Lemmas.Eval
 import BertE.Lemmas.Admin
+import BertE.Lemmas.Full2Inv
 /- The closed system (`Model/Full.lean`): every event preserves the invariant. -/
 namespace BertE.Full
-open BertE.Git BertE.Flow BertE.Select
+open BertE.Git BertE.Flow BertE.Select BertE.Close BertE.Full2
 
 /-! ### the invariant -/
 
@@ -14,28 +15,34 @@ def Link (cfg : Cfg) (h : BertE.Eval.Host) (queue : List QEntry) : Prop :=
   ∀ e ∈ queue, ∃ p d, h.pr e.pr = some p ∧ p.src = e.src ∧
     (BertE.Names.classify cfg.eval.early.names p.dst.toList).bind BertE.Eval.destOf = some d ∧ d ∈ e.targets
 
-/-- **The invariant of the closed system**: the invariant of the repository model (`Flow.Inv`: well-formedness,
-    forward-port inclusion, the queue invariant), the link between the queue bookkeeping and the host's pull
-    requests, and the cascade settings being those of the source (`C20_table`). -/
+/-- pull-request ids are positive (they are on every git host; the host of the model numbers from 1: `nextId`) -/
+def HostPos (h : BertE.Eval.Host) : Prop := ∀ p ∈ h.prs, p.id ≠ 0
+
+/-- **The invariant of the closed system**: the invariant of the repository model — `Full2.SysInv`: `Flow.Inv`
+    (well-formedness, forward-port inclusion, the queue invariant), Close's `VX` and `QSync` (so that
+    `Select.Validated` is a CONSEQUENCE and the guard of a queue evaluation is the modelled `validate()` alone),
+    monotone commit numbering (commit inclusion is antisymmetric) and distinct keys of the remote ref map —, the
+    link between the queue bookkeeping and the host's pull requests, positive pull-request ids, and the cascade
+    settings being those of the source (`C20_table`). -/
 structure FullInv (w : World) : Prop where
-  inv : Inv w.sys
+  sys : SysInv w.sys
   link : Link w.cfg w.host w.sys.queue
+  hostPos : HostPos w.host
   cascadeStd : w.cfg.cascade = BertE.Cascade.Cfg.std
 
-/-- The exits of admin jobs that leave the repository outside the queue invariant (forward-port inclusion is not
-    affected by them: the first one publishes a branch that `cascadeCheck` accepted, the second one only deletes):
-    * `create_branch` published the new branch and then died in its nested queue rebuild
-      (`C20_create_nested_crash`; needs a `q/` head whose destination branch does not exist - not reachable through
-      the robot's own jobs, not proved unreachable here);
-    * `delete_branch hotfix/x.y.z` succeeds while `q/x.y.z` — the queue of stabilization/x.y.z — exists: the job
-      deletes that queue branch, whatever is queued on it (known finding
-      `delete-hotfix-branch-deletes-the-stabilization-queue`, observed on the real code by every C20 check).
-    (The former third exit, "Unable to push new tag" after the deletion of a queue branch, is gone with the repair
-    f819c35 of `delete_branch`: a job that does not succeed has done nothing, `deleteBranch_inv`.) -/
+theorem FullInv.inv {w : World} (h : FullInv w) : Inv w.sys := h.sys.inv
+
+/-- what the selection model needs of a validated collection follows from the invariant -/
+theorem FullInv.validated {w : World} (h : FullInv w) : Validated w.sys := h.sys.validated
+
+/-- The ONE exit of an admin job that leaves the repository outside the queue invariant (forward-port inclusion is
+    not affected by it: the job only deletes): `delete_branch hotfix/x.y.z` succeeds while `q/x.y.z` — the queue of
+    stabilization/x.y.z — exists: the job deletes that queue branch, whatever is queued on it (known finding D19
+    `delete-hotfix-branch-deletes-the-stabilization-queue`, observed on the real code by every C20 check).
+    (The former exit "create_branch publishes the new branch, then its nested rebuild raises" is UNREACHABLE in a
+    world that satisfies the invariant: `createBranch_success_of_inv` below. The former third exit, "Unable to push
+    new tag" after the deletion of a queue branch, is gone with the repair f819c35 of `delete_branch`.) -/
 def AdminAnomaly (w : World) : FullEvent → Prop
-  | .createBranch name from_ =>
-    (BertE.Admin.createBranch w.cfg.cascade w.cfg.lits (repoOf w) name (recognized w name) from_).ops ≠ [] ∧
-    (BertE.Admin.createBranch w.cfg.cascade w.cfg.lits (repoOf w) name (recognized w name) from_).outcome ≠ .success
   | .deleteBranch name =>
     (BertE.Admin.deleteBranch w.cfg.cascade w.cfg.lits (repoOf w) name (recognized w name)).outcome = .success ∧
      ∃ M m u, name = .dest (.hotfix M m u) ∧ w.sys.useQueue = true ∧ w.sys.remote.has (.q (.stab M m u)) = true
@@ -141,14 +148,90 @@ theorem hostExt_refresh (w : World) : HostExt w.host (refresh w).host := by
     · exact ⟨rfl, rfl, rfl⟩
   · exact ⟨rfl, rfl, rfl⟩
 
+/-! ### the host: ids stay positive -/
+
+theorem HostPos.of_map {h : BertE.Eval.Host} (hp : HostPos h) (g : BertE.Eval.Pr → BertE.Eval.Pr)
+    (hg : ∀ p, (g p).id = p.id) (b : _) (i : _) : HostPos ⟨h.prs.map g, b, i⟩ := by
+  intro p hpm
+  obtain ⟨q, hq, rfl⟩ := List.mem_map.mp hpm
+  rw [hg]; exact hp q hq
+
+theorem HostPos.of_append {h : BertE.Eval.Host} (hp : HostPos h) (l : List BertE.Eval.Pr) (hl : ∀ p ∈ l, p.id ≠ 0)
+    (b : _) (i : _) : HostPos ⟨h.prs ++ l, b, i⟩ := by
+  intro p hpm
+  rcases List.mem_append.mp hpm with h1 | h1
+  · exact hp p h1
+  · exact hl p h1
+
+theorem hostPos_mapPr {h : BertE.Eval.Host} (hp : HostPos h) (id : Nat) (f : BertE.Eval.Pr → BertE.Eval.Pr)
+    (hf : ∀ p, (f p).id = p.id) : HostPos (mapPr h id f) := by
+  unfold mapPr
+  apply HostPos.of_map hp
+  intro p
+  split
+  · exact hf p
+  · rfl
+
+theorem hostPos_postAll (w : World) {h : BertE.Eval.Host} (hp : HostPos h) (id : Nat) (cs : List String) :
+    HostPos (postAll w h id cs) := hostPos_mapPr hp id _ (fun _ => rfl)
+
+theorem hostPos_postMerged (w : World) : ∀ (ids : List Nat) {h : BertE.Eval.Host}, HostPos h → HostPos (postMerged w h ids)
+  | [], _, hp => hp
+  | id :: ids, h, hp => by
+    unfold postMerged
+    simp only [List.foldl_cons]
+    exact hostPos_postMerged w ids (hostPos_postAll w hp id _)
+
+theorem hostPos_postFailed (w : World) : ∀ (ids : List Nat) {h : BertE.Eval.Host}, HostPos h → HostPos (postFailed w h ids)
+  | [], _, hp => hp
+  | id :: ids, h, hp => by
+    unfold postFailed
+    simp only [List.foldl_cons]
+    exact hostPos_postFailed w ids (hostPos_postAll w hp id _)
+
+theorem nextId_ne_zero (h : BertE.Eval.Host) : nextId h ≠ 0 := by unfold nextId; omega
+
+theorem hostPos_newChildren (w : World) (pr : PrInfo) : ∀ (ds : List Dest) (acc : BertE.Eval.Host × List (Nat × Nat)),
+    HostPos acc.1 → HostPos (ds.foldl (childStep w pr) acc).1
+  | [], _, hp => hp
+  | d :: ds, acc, hp => by
+    simp only [List.foldl_cons]
+    apply hostPos_newChildren w pr ds
+    unfold childStep
+    split
+    · exact hp
+    · apply HostPos.of_append hp
+      intro p hpm
+      simp only [List.mem_singleton] at hpm
+      subst hpm
+      exact nextId_ne_zero _
+
+theorem hostPos_declineChildren {h : BertE.Eval.Host} (hp : HostPos h) (pr : PrInfo) (ds : List Dest) :
+    HostPos (declineChildren h pr ds) := by
+  unfold declineChildren
+  apply HostPos.of_map hp
+  intro p
+  split <;> rfl
+
+theorem hostPos_refresh {w : World} (hp : HostPos w.host) : HostPos (refresh w).host := by
+  unfold refresh
+  apply HostPos.of_map hp
+  intro p
+  unfold refreshPr
+  split
+  · split
+    · split <;> rfl
+    · rfl
+  · rfl
+
 /-- the statuses of the host do not matter to the invariant -/
 theorem FullInv.refresh {w : World} (h : FullInv w) : FullInv (refresh w) :=
-  ⟨h.inv, h.link.mono (hostExt_refresh w) (fun _ he => he), h.cascadeStd⟩
+  ⟨h.sys, h.link.mono (hostExt_refresh w) (fun _ he => he), hostPos_refresh h.hostPos, h.cascadeStd⟩
 
 /-- an event that only changes the host -/
-theorem FullInv.host {w : World} (h : FullInv w) {h' : BertE.Eval.Host} (hh : HostExt w.host h') :
+theorem FullInv.host {w : World} (h : FullInv w) {h' : BertE.Eval.Host} (hh : HostExt w.host h') (hp : HostPos h') :
     FullInv { w with host := h' } :=
-  ⟨h.inv, h.link.mono hh (fun _ he => he), h.cascadeStd⟩
+  ⟨h.sys, h.link.mono hh (fun _ he => he), hp, h.cascadeStd⟩
 
 /-! ### the queue bookkeeping after a job -/
 
@@ -239,10 +322,7 @@ theorem step_queue_queues (s : Sys) (sel : List Nat) :
 theorem downClosed_selOf {w : World} (h : FullInv w) (force : Bool) : DownClosed w.sys (selOf w force) := by
   unfold selOf
   split
-  · rename_i hok
-    unfold queuesOK at hok
-    simp only [Bool.and_eq_true, decide_eq_true_eq] at hok
-    exact downClosed_selectOf h.inv hok.2 _ force
+  · exact downClosed_selectOf h.inv h.validated _ force
   · exact downClosed_nil _
 
 /-- a pull request that the bookkeeping holds as queued is found already queued -/
@@ -287,7 +367,7 @@ theorem link_queued {w : World} (h : FullInv w) {p : BertE.Eval.Pr} {id : Nat} (
 theorem evalOne_core {w : World} (h : FullInv w) (id : Nat) (orc : List Bool) (ooo : Bool)
     (hooo : ooo = true → (BertE.Eval.evalPr w.cfg.eval w.host w.sys id orc (selOf w false)).stage = .final ∧
       (BertE.Eval.evalPr w.cfg.eval w.host w.sys id orc (selOf w false)).declined = false) :
-    Inv (Flow.step w.sys (if ooo then .evalPr (BertE.Eval.evalPr w.cfg.eval w.host w.sys id orc (selOf w false)).pr
+    SysInv (Flow.step w.sys (if ooo then .evalPr (BertE.Eval.evalPr w.cfg.eval w.host w.sys id orc (selOf w false)).pr
           .integration orc (selOf w false)
         else (BertE.Eval.evalPr w.cfg.eval w.host w.sys id orc (selOf w false)).event orc (selOf w false))).1 ∧
     Link w.cfg w.host (Flow.step w.sys (if ooo then .evalPr (BertE.Eval.evalPr w.cfg.eval w.host w.sys id orc (selOf w false)).pr
@@ -303,7 +383,7 @@ theorem evalOne_core {w : World} (h : FullInv w) (id : Nat) (orc : List Bool) (o
       | true => have := (hooo ho).1; rw [hst] at this; cases this
     subst ho
     simp only [Bool.false_eq_true, if_false, BertE.Eval.Result.event, hnd, hst, step_early]
-    exact ⟨h.inv, h.link⟩
+    exact ⟨h.sys, h.link⟩
   · -- a declined pull request
     have ho : ooo = false := by
       cases ho : ooo with
@@ -311,7 +391,7 @@ theorem evalOne_core {w : World} (h : FullInv w) (id : Nat) (orc : List Bool) (o
       | true => have := (hooo ho).2; rw [hdec] at this; cases this
     subst ho
     simp only [Bool.false_eq_true, if_false, BertE.Eval.Result.event, hdec, if_true]
-    refine ⟨step_inv h.inv _ trivial, ?_⟩
+    refine ⟨full2_step_sysInv h.sys _ trivial trivial, ?_⟩
     rw [step_queue_declined]
     exact h.link
   · -- the post-clone part: a pull request of the host
@@ -330,7 +410,11 @@ theorem evalOne_core {w : World} (h : FullInv w) (id : Nat) (orc : List Bool) (o
         simp only [Bool.false_eq_true, if_false, BertE.Eval.Result.event, hpr.2, hpr.1]
     obtain ⟨stg, hev⟩ := hev
     rw [hev]
-    refine ⟨step_inv h.inv _ ⟨hdown, link_queued h hat.found hat.dstName _⟩, ?_⟩
+    have hid0 : p.id ≠ 0 := by
+      have := hat.found
+      unfold BertE.Eval.Host.pr at this
+      exact h.hostPos p (List.mem_of_find?_eq_some this)
+    refine ⟨full2_step_sysInv h.sys _ ⟨hdown, link_queued h hat.found hat.dstName _⟩ hid0, ?_⟩
     rw [step_queue_evalPr]
     intro e he
     rcases planPr_queue_mem _ _ _ _ _ e he with h1 | h1
@@ -357,8 +441,6 @@ theorem evalOne_inv {w : World} (h : FullInv w) (id : Nat) (orc : List Bool) : F
       intro hh
       simp only [Bool.and_eq_true, beq_iff_eq, Bool.not_eq_true'] at hh
       exact ⟨hh.1.1.1, hh.1.1.2⟩)
-  refine ⟨hcore.1, ?_, h.cascadeStd⟩
-  refine hcore.2.mono ?_ (fun _ he => he)
   -- the host only grows: messages, integration pull requests, declined children
   have h1 : ∀ notes ids fl, HostExt w.host (postFailed w (postMerged w (postAll w w.host
       (BertE.Eval.evalPr w.cfg.eval w.host w.sys id orc (selOf w false)).pr.id notes) ids) fl) :=
@@ -375,6 +457,23 @@ theorem evalOne_inv {w : World} (h : FullInv w) (id : Nat) (orc : List Bool) : F
     cases b
     · exact HostExt.refl _
     · exact hostExt_declineChildren x pr ds
+  have p1 : ∀ notes ids fl, HostPos (postFailed w (postMerged w (postAll w w.host
+      (BertE.Eval.evalPr w.cfg.eval w.host w.sys id orc (selOf w false)).pr.id notes) ids) fl) :=
+    fun notes ids fl => hostPos_postFailed w _ (hostPos_postMerged w _ (hostPos_postAll w h.hostPos _ _))
+  have p2 : ∀ (b : Bool) (x : BertE.Eval.Host) (pr : PrInfo) (ds : List Dest), HostPos x →
+      HostPos (if b then newChildren w x pr ds else (x, [])).1 := by
+    intro b x pr ds hx
+    cases b
+    · exact hx
+    · exact hostPos_newChildren w pr ds (x, []) hx
+  have p3 : ∀ (b : Bool) (x : BertE.Eval.Host) (pr : PrInfo) (ds : List Dest), HostPos x →
+      HostPos (if b then declineChildren x pr ds else x) := by
+    intro b x pr ds hx
+    cases b
+    · exact hx
+    · exact hostPos_declineChildren hx pr ds
+  refine ⟨hcore.1, ?_, p3 _ _ _ _ (p2 _ _ _ _ (p1 _ _ _)), h.cascadeStd⟩
+  refine hcore.2.mono ?_ (fun _ he => he)
   exact ((h1 _ _ _).trans (h2 _ _ _ _)).trans (h3 _ _ _ _)
 
 /-- a pull-request job (integration pull requests are handled as their parent) -/
@@ -397,12 +496,9 @@ theorem queuesJob_inv {w : World} (h : FullInv w) (force : Bool) : FullInv (queu
   unfold queuesJob
   split
   · exact h
-  · rename_i hok
-    simp only [Bool.not_eq_true, Bool.not_eq_false'] at hok
-    unfold queuesOK at hok
-    simp only [Bool.and_eq_true, decide_eq_true_eq] at hok
-    apply FullInv.refresh
-    refine ⟨step_inv h.inv _ (downClosed_selectOf h.inv hok.2 _ force), ?_, h.cascadeStd⟩
+  · apply FullInv.refresh
+    refine ⟨full2_step_sysInv h.sys _ (downClosed_selectOf h.inv h.validated _ force) trivial, ?_,
+      hostPos_postFailed w _ (hostPos_postMerged w _ h.hostPos), h.cascadeStd⟩
     refine h.link.mono ((hostExt_postMerged w _ _).trans (hostExt_postFailed w _ _)) ?_
     intro e he
     exact planQueues_queue_mem _ _ e he
@@ -449,11 +545,90 @@ theorem planCreateBranch_queue_mem (s : Sys) (d : Dest) (c : Commit) :
   · cases he
   · exact he
 
+/-- **The nested queue rebuild of `create_branch` cannot die after the publication** in a world that satisfies the
+    invariant: `rebuild_queues` raises (`CheckoutFailedException`, `Admin.createBranch_nested_crash`) only when the
+    destination branch of the first `q/*` head does not exist; a `q/<v>` branch only exists beside its destination
+    (`QInv.qdest`), a `q/w/<pr>/<v>/…` branch belongs to a queued pull request that targets `<v>` (`VX.qwE`), whose
+    targets have their destination branch (`QueueInv.entry`). So a job that published the new branch ends with
+    JobSuccess. -/
+theorem createBranch_success_of_inv {w : World} (h : FullInv w) (name : Ref) (from_ : Option BertE.Admin.Rev)
+    (hops : (BertE.Admin.createBranch w.cfg.cascade w.cfg.lits (repoOf w) name (recognized w name) from_).ops ≠ []) :
+    (BertE.Admin.createBranch w.cfg.cascade w.cfg.lits (repoOf w) name (recognized w name) from_).outcome = .success := by
+  rcases BertE.Admin.createBranch_inv w.cfg.cascade w.cfg.lits (repoOf w) name (recognized w name) from_ with
+    h0 | ⟨d, c, casc, hn, hex, _, _, _, hcc, h1, h2⟩
+  · exact absurd h0.1 hops
+  · cases hcond : (!(repoOf w).useQueue || !d.isDev) with
+    | true => rw [h1 hcond]
+    | false =>
+      rw [h2 hcond]
+      have huq : (repoOf w).useQueue = true := by
+        cases hu : (repoOf w).useQueue with
+        | true => rfl
+        | false => rw [hu] at hcond; simp at hcond
+      show (BertE.Admin.rebuildQueues w.cfg.cascade _).outcome = .success
+      unfold BertE.Admin.rebuildQueues
+      simp only [huq, Bool.not_true, Bool.false_eq_true, if_false]
+      unfold BertE.Admin.cascadeCheck at hcc
+      cases hb : BertE.Admin.cascadeBuild w.cfg.cascade
+          (BertE.Admin.destsOf ((repoOf w).heads.set (.dest d) c)) (repoOf w).tags with
+      | error e => rw [hb] at hcc; cases hcc
+      | ok c1 =>
+        simp only
+        cases hq : (BertE.Admin.queueBranches ((repoOf w).heads.set (.dest d) c)).head? with
+        | none => rfl
+        | some first =>
+          simp only
+          have hmem : first ∈ allQRefs (cloneHeads w.sys.remote) := by
+            have := List.mem_of_mem_head? hq
+            unfold BertE.Admin.queueBranches at this
+            rw [BertE.Admin.allQRefs_set_dest] at this
+            exact this
+          obtain ⟨hisq, c0, hc0⟩ := BertE.Admin.mem_allQRefs.mp hmem
+          obtain ⟨c0', hget⟩ := BertE.Admin.get_of_mem hc0
+          rw [cloneHeads_get] at hget
+          -- the destination branch of the first queue head exists
+          have hdest : ∀ d0, BertE.Admin.qDest first = some d0 → (w.sys.remote.get (.dest d0)).isSome = true := by
+            intro d0 hd0
+            cases first with
+            | q d' =>
+              simp only [BertE.Admin.qDest, Option.some.injEq] at hd0
+              subst hd0
+              exact h.inv.q.qdest _ (by rw [hget]; rfl)
+            | qw pr d' src =>
+              simp only [BertE.Admin.qDest, Option.some.injEq] at hd0
+              subst hd0
+              obtain ⟨e, he, _, _, hd'⟩ := h.sys.vx.qwE pr d' src (by rw [hget]; rfl)
+              obtain ⟨_, t, _, ht, _⟩ := h.inv.q.base.entry e he d' hd'
+              rw [ht]; rfl
+            | dest _ => cases hd0
+            | w _ _ => cases hd0
+            | other _ => cases hd0
+          have hmove : ∀ g tags uq, BertE.Admin.moveAway ⟨g, (repoOf w).heads.set (.dest d) c, tags, uq⟩ first = none := by
+            intro g tags uq
+            unfold BertE.Admin.moveAway
+            cases hqd : BertE.Admin.qDest first with
+            | none =>
+              unfold BertE.Admin.isQRef at hisq
+              rw [hqd] at hisq; cases hisq
+            | some d0 =>
+              simp only
+              have hhas : ((repoOf w).heads.set (.dest d) c).has (.dest d0) = true := by
+                unfold RefMap.has
+                by_cases hdd : d0 = d
+                · subst hdd; rw [RefMap.get_set_eq]; rfl
+                · rw [RefMap.get_set_ne _ _ (by intro he; simp only [Ref.dest.injEq] at he; exact hdd he)]
+                  show ((cloneHeads w.sys.remote).get (.dest d0)).isSome = true
+                  rw [cloneHeads_get]
+                  exact hdest d0 hqd
+              simp only [hhas, Bool.not_true, Bool.false_eq_true, if_false]
+          rw [hmove]
+
 /-- **create_branch** — each conjunct of `Adm` for the event comes from what `Admin.createBranch` checked: the branch
     does not exist, `BranchCascade.validate()` accepted the clone that holds it (`cascadeCheck_spec`: literally
-    `InclOn`), the branching point exists. -/
-theorem createJob_inv {w : World} (h : FullInv w) (name : Ref) (from_ : Option BertE.Admin.Rev) (orc : List Bool)
-    (hna : ¬ AdminAnomaly w (.createBranch name from_)) : FullInv (createJob w name from_ orc).1 := by
+    `InclOn`; and its shape rules: a stabilization branch has its development branch — `Close.AdmC`), the branching
+    point exists. A job that published ends with JobSuccess (`createBranch_success_of_inv`). -/
+theorem createJob_inv {w : World} (h : FullInv w) (name : Ref) (from_ : Option BertE.Admin.Rev) (orc : List Bool) :
+    FullInv (createJob w name from_ orc).1 := by
   unfold createJob
   simp only
   split
@@ -465,7 +640,7 @@ theorem createJob_inv {w : World} (h : FullInv w) (name : Ref) (from_ : Option B
         show FullInv (resubmit orc _ 0 _).1
         apply resubmit_inv
         apply FullInv.refresh
-        have hadm : Adm w.sys (.createBranch d c) := by
+        have hadm : Adm w.sys (.createBranch d c) ∧ AdmC w.sys (.createBranch d c) := by
           rcases BertE.Admin.createBranch_inv w.cfg.cascade w.cfg.lits (repoOf w) name (recognized w name) from_ with
             h0 | ⟨d', c', casc, hn, hex, _, _, _, hcc, h1, h2⟩
           · rw [h0.1] at heq; cases heq
@@ -483,31 +658,42 @@ theorem createJob_inv {w : World} (h : FullInv w) (name : Ref) (from_ : Option B
                 exact ⟨heq.1.1.1, heq.1.1.2⟩
             obtain ⟨rfl, rfl⟩ := hdc
             subst hn
-            refine ⟨hc, ?_, ?_⟩
+            rw [h.cascadeStd] at hcc
+            have hspec := BertE.Admin.cascadeCheck_spec h.inv.wf.g
+              (BertE.Admin.keysNodup_set (cloneHeads_nodup w.sys.remote) (.dest d') c') hcc
+            refine ⟨⟨hc, ?_, ?_⟩, ?_⟩
             · have : (cloneHeads w.sys.remote).has (.dest d') = false := hex
               unfold RefMap.has at this
               rw [cloneHeads_get] at this
               cases hg : w.sys.remote.get (.dest d') with
               | none => rfl
               | some x => rw [hg] at this; cases this
-            · rw [h.cascadeStd] at hcc
-              have := (BertE.Admin.cascadeCheck_spec h.inv.wf.g
-                (BertE.Admin.keysNodup_set (cloneHeads_nodup w.sys.remote) (.dest d') c') hcc).1
-              apply inclOn_of_get this
+            · apply inclOn_of_get hspec.1
               intro r
               by_cases hr : r = .dest d'
               · subst hr; rw [RefMap.get_set_eq, RefMap.get_set_eq]
               · rw [RefMap.get_set_ne _ _ hr, RefMap.get_set_ne _ _ hr]
                 exact (cloneHeads_get _ _).symm
-        exact ⟨step_inv h.inv _ hadm, h.link.mono (HostExt.refl _) (planCreateBranch_queue_mem _ _ _),
-          h.cascadeStd⟩
+            · -- a stabilization branch is created beside its development branch
+              cases d' with
+              | dev M m => trivial
+              | hotfix M m u => trivial
+              | stab M m u =>
+                show (M, some m) ∈ w.sys.devs
+                have hmem : BertE.Cascade.Branch.stab M m u ∈
+                    BertE.Admin.branchesOf ((cloneHeads w.sys.remote).set (.dest (.stab M m u)) c') :=
+                  BertE.Admin.mem_branchesOf.mpr ⟨c', RefMap.get_set_eq _ _ _⟩
+                obtain ⟨cd, hcd⟩ := BertE.Admin.mem_branchesOf.mp (hspec.2.hasDev M m u hmem)
+                have hcd' : ((cloneHeads w.sys.remote).set (.dest (.stab M m u)) c').get (.dest (.dev M (some m))) = some cd := hcd
+                rw [RefMap.get_set_ne _ _ (by intro he; cases he), cloneHeads_get] at hcd'
+                exact h.inv.wf.devsOK M (some m) cd hcd'
+        exact ⟨full2_step_sysInv h.sys _ hadm.1 hadm.2, h.link.mono (HostExt.refl _) (planCreateBranch_queue_mem _ _ _),
+          h.hostPos, h.cascadeStd⟩
       · rename_i hns
         exfalso
-        apply hna
-        refine ⟨by rw [heq]; exact List.cons_ne_nil _ _, ?_⟩
-        intro hs
         apply hns
-        rw [hs]; rfl
+        rw [createBranch_success_of_inv h name from_ (by rw [heq]; exact List.cons_ne_nil _ _)]
+        rfl
     · exact h
   · exact h
 
@@ -529,7 +715,7 @@ theorem deleteJob_inv {w : World} (h : FullInv w) (name : Ref)
   apply FullInv.refresh
   have hinv := BertE.Admin.deleteBranch_inv w.cfg.cascade w.cfg.lits (repoOf w) name (recognized w name)
   by_cases hs : (BertE.Admin.deleteBranch w.cfg.cascade w.cfg.lits (repoOf w) name (recognized w name)).outcome = .success
-  · obtain ⟨d, tip, hn, _, _, hq, _, hops⟩ := hinv.1 hs
+  · obtain ⟨d, tip, hn, _, hstab, hq, _, hops⟩ := hinv.1 hs
     subst hn
     have hb : ((BertE.Admin.deleteBranch w.cfg.cascade w.cfg.lits (repoOf w) (.dest d) (recognized w (.dest d))).outcome
         == .success) = true := by rw [hs]; rfl
@@ -604,8 +790,24 @@ theorem deleteJob_inv {w : World} (h : FullInv w) (name : Ref)
           simp [show w.sys.remote.has (.q (.stab M m u)) = true from hhas]
         simp [RefMap.has, BertE.Admin.delQueueRef, hx]
     rw [hclob]
-    exact ⟨step_inv h.inv _ hadm, h.link.mono (HostExt.refl _) (fun e he => by cases d <;> exact he),
-      h.cascadeStd⟩
+    -- a development branch is deleted only when no stabilization branch of it is alive
+    have hadc : AdmC w.sys (.deleteBranch d) := by
+      cases d with
+      | stab M m u => trivial
+      | hotfix M m u => trivial
+      | dev M m =>
+        intro m' u hm
+        subst hm
+        cases hg : w.sys.remote.get (.dest (.stab M m' u)) with
+        | none => rfl
+        | some c =>
+          have := BertE.Admin.stabAlive_of_stab (heads := cloneHeads w.sys.remote) (M := M) (m := m') (u := u) (c := c)
+            (by rw [cloneHeads_get]; exact hg)
+          rw [show (repoOf w).heads = cloneHeads w.sys.remote from rfl] at hstab
+          rw [hstab rfl] at this
+          cases this
+    exact ⟨full2_step_sysInv h.sys _ hadm hadc, h.link.mono (HostExt.refl _) (fun e he => by cases d <;> exact he),
+      h.hostPos, h.cascadeStd⟩
   · -- a refusal: nothing was done
     have hops : (BertE.Admin.deleteBranch w.cfg.cascade w.cfg.lits (repoOf w) name (recognized w name)).ops = [] :=
       hinv.2.1 hs
@@ -617,12 +819,12 @@ theorem deleteJob_inv {w : World} (h : FullInv w) (name : Ref)
       | true => exact absurd (by simpa using hc) hs
     rw [hops]
     simp only [hb, qDeletions, List.filterMap_nil, List.filter_nil, delRefs, List.foldl_nil]
-    exact ⟨h.inv, h.link, h.cascadeStd⟩
+    exact ⟨h.sys, h.link, h.hostPos, h.cascadeStd⟩
 
 theorem dropJob_inv {w : World} (h : FullInv w) (rebuild : Bool) (orc : List Bool) : FullInv (dropJob w rebuild orc).1 := by
   have hdrop : FullInv (refresh { w with sys := (Flow.step w.sys .dropQueues).1 }) := by
     apply FullInv.refresh
-    refine ⟨step_inv h.inv _ trivial, ?_, h.cascadeStd⟩
+    refine ⟨full2_step_sysInv h.sys _ trivial trivial, ?_, h.hostPos, h.cascadeStd⟩
     intro e he
     have : (Flow.step w.sys .dropQueues).1.queue = (planDropQueues w.sys).queue := rfl
     have he' : e ∈ (planDropQueues w.sys).queue := by rw [← this]; exact he
@@ -643,13 +845,13 @@ theorem dropJob_inv {w : World} (h : FullInv w) (rebuild : Bool) (orc : List Boo
 /-! ### third parties -/
 
 theorem external_inv {w : World} (h : FullInv w) (ok : Bool) (ev : Event) (hadm : ok = true → Adm w.sys ev)
-    (hq : (Flow.step w.sys ev).1.queue = w.sys.queue) : FullInv (external w ok ev).1 := by
+    (hc : AdmC w.sys ev) (hq : (Flow.step w.sys ev).1.queue = w.sys.queue) : FullInv (external w ok ev).1 := by
   unfold external
   split
   · rename_i hok
     apply FullInv.refresh
-    exact ⟨step_inv h.inv _ (hadm hok), by rw [show ({ w with sys := (Flow.step w.sys ev).1 } : World).sys.queue =
-      (Flow.step w.sys ev).1.queue from rfl, hq]; exact h.link, h.cascadeStd⟩
+    have hl : Link w.cfg w.host (Flow.step w.sys ev).1.queue := by rw [hq]; exact h.link
+    exact ⟨full2_step_sysInv h.sys _ (hadm hok) hc, hl, h.hostPos, h.cascadeStd⟩
   · exact h
 
 end BertE.Full
